@@ -98,6 +98,28 @@ func (h *hist) checkPanic(what string, err error) {
 	}
 }
 
+// longConstOnIndexed: a string constant longer than the 512-byte column on an indexed STRING field
+// (the range bound cannot be encoded as a key; the same query works when no index is used)
+func (h *hist) longConstOnIndexed(q *Query) bool {
+	for _, g := range q.Groups {
+		for _, cm := range g {
+			f := h.c.field(cm.Field)
+			sv, isS := cm.Val.(string)
+			if f == nil || f.Type != tStr || !isS || len(sv) <= 512 {
+				continue
+			}
+			for _, ix := range h.c.Indexes {
+				for _, col := range ix.Cols {
+					if col == cm.Field {
+						return true
+					}
+				}
+			}
+		}
+	}
+	return false
+}
+
 // twoStringIndex: an index over two STRING fields exists (its keys exceed the store's key limit)
 func (h *hist) twoStringIndex() bool {
 	for _, ix := range h.c.Indexes {
@@ -122,6 +144,8 @@ const (
 	lblUnique = "[unique-after-tombstone/C12] "
 	lblStale  = "[unique-stale-snapshot] "
 	lblTwoStr = "[two-string-index] "
+	lblLongC  = "[long-constant-index] "
+	lblUCrNE  = "[unique-created-nonempty/C12] "
 )
 
 var engineModes = []struct {
@@ -213,7 +237,11 @@ func (h *hist) doSearch(q *Query, off int64, withCount bool) ([]string, bool) {
 		h.step(fmt.Sprintf("OSearch %s %d", queryTerm(q), off), "BErr")
 		h.logf("search %s off=%d -> ERR %v", qs, off, err)
 		if h.c.queryValid(q) {
-			h.finding("", fmt.Sprintf("search rejected a well-formed query: %s off=%d: %v", qs, off, err))
+			lbl := ""
+			if h.longConstOnIndexed(q) {
+				lbl = lblLongC
+			}
+			h.finding(lbl, fmt.Sprintf("search rejected a well-formed query: %s off=%d: %v", qs, off, err))
 		}
 		return nil, false
 	}
@@ -493,9 +521,14 @@ func (h *hist) checkUnique() {
 			k := h.c.tupleKey(d, ix.Cols, mode{})
 			if other, dup := seen[k]; dup {
 				lbl := ""
-				if h.tombstonedBefore(ix.Cols, k) {
+				switch {
+				case h.zeroSignsDiffer(ix.Cols, h.c.doc(other), d):
+					lbl = lblNegZ // -0.0 and +0.0: one value, two keys
+				case h.tombstonedBefore(ix.Cols, k):
 					lbl = lblUnique
-				} else if h.noRefresh {
+				case ix.CreatedNonEmpty:
+					lbl = lblUCrNE
+				case h.noRefresh:
 					lbl = lblStale
 				}
 				h.finding(lbl, fmt.Sprintf("unique index (%s) holds duplicates: documents %s and %s share %s",
@@ -504,6 +537,27 @@ func (h *hist) checkUnique() {
 			seen[k] = d.ID
 		}
 	}
+}
+
+// zeroSignsDiffer: the two documents hold zeros of different sign in a DOUBLE column of the index
+func (h *hist) zeroSignsDiffer(cols []string, a, b *Doc) bool {
+	if a == nil || b == nil || !negZeroKeysDistinct() {
+		return false
+	}
+	for _, col := range cols {
+		f := h.c.field(col)
+		if f == nil || f.Type != tDbl {
+			continue
+		}
+		va, oka := pathGet(a.Cur(), col)
+		vb, okb := pathGet(b.Cur(), col)
+		fa, isA := va.(float64)
+		fb, isB := vb.(float64)
+		if oka && okb && isA && isB && fa == 0 && fb == 0 && math.Signbit(fa) != math.Signbit(fb) {
+			return true
+		}
+	}
+	return false
 }
 
 // tombstonedBefore: some document held this tuple in an earlier version and no longer does
@@ -757,7 +811,12 @@ func (h *hist) createIndex(cols []string, uniq bool) bool {
 	h.step(fmt.Sprintf("OCreateIndex %s %v", colsTerm(cols), uniq), errObs(err))
 	h.logf("createIndex (%s) unique=%v -> %v", strings.Join(cols, ","), uniq, err)
 	if err == nil {
-		h.c.Indexes = append(h.c.Indexes, Index{Cols: cols, Unique: uniq})
+		ne := uniq && len(h.c.live()) > 0
+		h.c.Indexes = append(h.c.Indexes, Index{Cols: cols, Unique: uniq, CreatedNonEmpty: ne})
+		if ne {
+			h.logf("NOTE unique index created on a non-empty collection (the first document of the primary index is a tombstone)")
+			h.checkUnique()
+		}
 	}
 	return err == nil
 }
